@@ -224,8 +224,8 @@ def run(ctx: Context) -> None:
                     got[const_value(a.args[0], None)] = [const_value(e, None) for e in on.elts] if isinstance(on, (ast.List, ast.Tuple)) else None
         ctx.check('R14.5', got == {f"v{k}": [f"x{k}", f"y{k}"] for k in range(3)}, "v<k> is the vertex index joined on exactly [x<k>, y<k>]", td, td.node,
                   construct=f"joins {got}")
-        tr = m.stmt("$triangles = $joined[['v0', 'v1', 'v2']].to_numpy()")
-        fa = m.stmt(f"$faces = $joined['{lab_col[0] if lab_col else 'face_indices'}'].to_numpy()")
+        tr = m.stmt("$triangles = $joined[['v0', 'v1', 'v2']].values")
+        fa = m.stmt(f"$faces = $joined['{lab_col[0] if lab_col else 'face_indices'}'].values")
         ctx.check('R14.5', tr is not None, "the triangles returned are (v0, v1, v2) in that order", td, tr or td.node, construct="triangles = joined[['v0','v1','v2']].to_numpy()")
         ok = fa is not None and all(Matcher(ctx, td, m.bind).match('($vcoords, $triangles, $faces)', r.value) for r in td.returns()) and td.returns()
         ctx.check('R14.4', bool(ok), "the labels returned are the ones written, with the vertex list and the triangles", td, fa or td.node,
